@@ -238,6 +238,29 @@ def roundtrip2(L=1, form="prefix"):
     return Spec([("arrs", Dict[str, List[int]]), ("k", str)], pre2, body2, tags=["ok", "unresolvable"])
 
 
+HOSTILE = ["", "a/b", "m~n", "~1", "~01", "~0", "~", "/", "%25", "c%d", "0", "é", " ", "a b", "#", "?q", "~0~1", "~10", "a~1b", '"', "\\"]
+
+
+def hostile_names():
+    """concrete hostile member names (native caches keyed by the fragment text see concrete strings), every one next to the members a
+    wrong decoding would reach; each pointer is resolved twice"""
+    def pre(ni, v):
+        return 0 <= ni < len(HOSTILE)
+
+    def body(ni, v):
+        doc = {}
+        for i, n in enumerate(HOSTILE):
+            doc[n] = v + i
+        name = pick(HOSTILE, ni)
+        frag = "/" + esc(name).replace("%", "%25").replace(" ", "%20").replace('"', "%22").replace("#", "%23").replace("?", "%3F")
+        got = resolve({"x": doc, "": doc}, "/x" + frag)
+        want = ("ok", doc[name])
+        got2 = resolve(doc, frag)
+        return same(got, want) and same(got2, want), got[0]
+
+    return Spec([("ni", int), ("v", int)], pre, body, tags=["ok"])
+
+
 def array_tokens(target="list"):
     """index tokens from the catalogue against an array of symbolic length, a string, and scalars"""
     if target == "list":
@@ -303,6 +326,7 @@ def conditions(tier, seed, active):
     c("array/list", "array_tokens", dict(target="list"), ["ok", "unresolvable"])
     c("array/str", "array_tokens", dict(target="str"), ["unresolvable"])
     c("array/int", "array_tokens", dict(target="int"), ["unresolvable"])
+    c("hostile-names", "hostile_names", {}, ["ok"])
     c("whole/obj", "whole", dict(kind="obj"), ["ok"])
     c("whole/arr", "whole", dict(kind="arr"), ["ok"])
     return out
